@@ -448,3 +448,11 @@ def check(prog, res, tier):
     else:
         ob.verdict, ob.detail = PROVED, f'{len(tables)} tables, {ncols} columns'
     res.add(ob)
+
+    # ---- C18 through the extraction tool: what the operator gives on the command line reaches the reader
+    from .tools import cli_argv_io_ob
+    ob = cli_argv_io_ob(prog, res, 'C18.a', 'cli.mci_ipm_param_to_csv', out_flags=('--out-filename',),
+                        ctor_expect=((1, 'IpmParamReader', 'table_id', 'value'), ('--expanded', 'IpmParamReader', 'expanded', 'bool'),
+                                     ('--in-encoding', 'IpmParamReader', 'encoding', 'value')))
+    if ob is not None:
+        res.add(ob)
